@@ -2,6 +2,7 @@
 // model and independent oracles.  Serves C03 C04 C05 C06 (C10 C11 C12 in
 // eng_router2.cpp through the hooks below) and feeds C15/C20.
 #include "router_session.h"
+#include "sigs.h"
 
 using namespace Avoid;
 
@@ -95,7 +96,7 @@ std::string RouterSession::describeScene() {
 // library call wrapper: exceptions are mid-operation failures of a live object (S8)
 template <class F> static std::string guardedCall(RouterSession *s, F fn) {
     try { LibScope ls; fn(); }
-    catch (vpsc::CriticalFailure &f) { HarnessScope hs; return fmt("assert@%s:%d", strstr(f.file, "lib") ? strstr(f.file, "lib") : f.file, f.line); }
+    catch (vpsc::CriticalFailure &f) { HarnessScope hs; return assertSig(f); }
     catch (std::exception &e) { return "std::exception"; }
     catch (const char *) { return "char*"; }
     catch (...) { return "unknown-exception"; }
